@@ -8,6 +8,7 @@ import (
 
 	"pgregory.net/rapid"
 	"verif/harness/hist"
+	"verif/harness/live"
 	"verif/harness/observe"
 )
 
@@ -111,6 +112,17 @@ func (o *c14) End(x *hctx) string {
 	if err != nil || fi.Size() != int64(len(n.Content)) {
 		return fmt.Sprintf("Stat after close: size=%v err=%v, reference length %d", sizeOf(fi), err, len(n.Content))
 	}
+	// the handle wrote to its own file only: every other file still reads as the reference says
+	for p, other := range x.mr.M.Nodes {
+		if p == o.path || other.Kind != "file" {
+			continue
+		}
+		data, err := observe.ReadAll(hist.Call, x.r.W.FS, p)
+		checkObs(x.f, hangOnly(err), "final read of sibling")
+		if err != nil || !bytes.Equal(data, other.Content) {
+			return fmt.Sprintf("sibling %q reads %d bytes %q (err %v) after the handle on %q was closed, the reference holds %d bytes %q", p, len(data), clip(data), err, o.path, len(other.Content), clip(other.Content))
+		}
+	}
 	return ""
 }
 
@@ -127,7 +139,7 @@ var c14Weights = map[string]int{
 func TestC14(t *testing.T) {
 	rapid.Check(t, func(t *rapid.T) {
 		cfg := hist.DrawCfg(t, 50, nil)
-		g := hist.NewGen(t, c14Weights, hist.Universe, 2, cfg.RecordSize)
+		g := hist.NewGen(t, c14Weights, hist.Universe, 2, cfg.RecordSize).WithSuffixNames(t, cfg)
 		g.Avoid = f33Avoid(cfg, avoidFor("C14"))
 		if guard("F-33") && cfg.Compression == "parallelbzip2" && cfg.Encryption == "pgp" {
 			g.MaxSize = 90000
@@ -153,11 +165,21 @@ func TestC14(t *testing.T) {
 		if !exists {
 			flag |= os.O_CREATE
 		}
+		// the file's name: plain, or (a third of the cases under a pipeline with a suffix)
+		// ending in that suffix, with or without its stem as a sibling
+		name := "/f"
 		var pro []hist.Step
-		if exists {
-			pro = append(pro, hist.Step{Op: "create", Path: "/f", Slot: 0}, init, hist.Step{Op: "close", Slot: 0})
+		if cs, es := hist.PipelineSuffix(cfg); cs+es != "" && rapid.IntRange(0, 2).Draw(t, "suffixname") == 0 {
+			name = "/f" + cs + es
+			if rapid.Bool().Draw(t, "stem_sibling") {
+				pro = append(pro, hist.Step{Op: "create", Path: "/f", Slot: 1}, hist.Step{Op: "write", Slot: 1, Size: 7, Dist: 3, Seed: 1}, hist.Step{Op: "close", Slot: 1})
+			}
+			live.S.Class("name_ends_in_pipeline_suffix")
 		}
-		pro = append(pro, hist.Step{Op: "openfile", Path: "/f", Slot: 0, Flag: flag, Perm: 0644})
+		if exists {
+			pro = append(pro, hist.Step{Op: "create", Path: name, Slot: 0}, init, hist.Step{Op: "close", Slot: 0})
+		}
+		pro = append(pro, hist.Step{Op: "openfile", Path: name, Slot: 0, Flag: flag, Perm: 0644})
 		n := rapid.IntRange(1, *maxSteps).Draw(t, "nsteps")
 		runCase(t, "C14", cfg, nil, &c14{}, worldOptsNone, func(x *hctx, i int) (hist.Step, bool) {
 			if i < len(pro) {
